@@ -42,7 +42,7 @@ func init() {
 		return sym{types.Uint8, v}
 	}
 	externals[zz+"Choose"] = func(fr *frame, a []value) value {
-		n := a[1].(int)
+		n := fr.concrete(a[1], "choose-n").(int)
 		k := fr.i.path.Choose(n, "choose:"+a[0].(string))
 		fr.i.path.hchoices = append(fr.i.path.hchoices, k)
 		return k
